@@ -122,7 +122,10 @@ class RuleRun:
         self.observations.append(text)
 
     def violation(self, node_or_construct, message, g=None, path=None,
-                  instance=None, at_root=False):
+                  instance=None, at_root=False, key=None):
+        """`key`: a semantic name of the construct used for the identity of
+        the finding instead of the statement text (so that renaming a local
+        does not change which finding it is)."""
         if at_root and not isinstance(node_or_construct, tuple):
             node_or_construct = root_construct(node_or_construct)
         if isinstance(node_or_construct, tuple):
@@ -136,8 +139,12 @@ class RuleRun:
             stmt = stmt_text(n)
             lineno = n.lineno
         w = witness(g, path) if (g is not None and path) else []
+        shown = stmt
+        if key is not None:
+            shown, stmt = stmt, key
         f = Finding(self.rd.id, module, function, stmt, message, lineno, w,
                     instance)
+        f.shown = ' '.join((shown or '').split())
         for old in self.findings:
             if old.key == f.key:
                 return old
@@ -307,7 +314,9 @@ def check_property(pid, tier='quick', seed=0, out=sys.stdout, src=SRC,
                   file=out)
             print('    at %s:%s in %s' % (f.module, f.lineno, f.function),
                   file=out)
-            print('    construct: %s' % f.stmt[:200], file=out)
+            print('    construct: %s' % getattr(f, 'shown', f.stmt)[:200] + (
+                '   [%s]' % f.stmt if getattr(f, 'shown', f.stmt) != f.stmt
+                else ''), file=out)
             print('    %s' % f.message, file=out)
             if k is not None and k.get('status') == 'fixed':
                 print('    (this was repaired in %s and has come back)' %
